@@ -48,6 +48,8 @@ func (P) Facts() []core.Fact {
 			core.Fact{Name: name + "_noRetarget", Value: p.PoWNoRetargeting},
 			core.Fact{Name: name + "_reduceMinDiff", Value: p.ReduceMinDifficulty},
 			core.Fact{Name: name + "_enforceBIP94", Value: p.EnforceBIP94},
+			core.Fact{Name: name + "_genesisBits", Value: p.GenesisBlock.Header.Bits},
+			core.Fact{Name: name + "_genesisTime", Value: p.GenesisBlock.Header.Timestamp.Unix()},
 		)
 	}
 	fs = append(fs, core.Fact{Name: "maxTimeOffsetSeconds", Value: int64(blockchain.MaxTimeOffsetSeconds)})
@@ -141,11 +143,34 @@ func (P) Exec(line string) string {
 	}
 	switch f[1] {
 	case "c2b":
-		return signedHex(blockchain.CompactToBig(u32hex(f[2])))
+		// results are values: mutate the first answer, ask again, the answers must agree
+		a := blockchain.CompactToBig(u32hex(f[2]))
+		s := signedHex(a)
+		a.Add(a, big.NewInt(12345))
+		if signedHex(blockchain.CompactToBig(u32hex(f[2]))) != s {
+			return "aliased"
+		}
+		return s
 	case "b2c":
-		return fmt.Sprintf("%08x", blockchain.BigToCompact(parseSignedHex(f[2])))
+		n := parseSignedHex(f[2])
+		keep := new(big.Int).Set(n)
+		c := blockchain.BigToCompact(n)
+		if n.Cmp(keep) != 0 {
+			return "input-mutated"
+		}
+		if blockchain.BigToCompact(n) != c {
+			return "unstable"
+		}
+		return fmt.Sprintf("%08x", c)
 	case "work":
-		return blockchain.CalcWork(u32hex(f[2])).Text(16)
+		a := blockchain.CalcWork(u32hex(f[2]))
+		s := a.Text(16)
+		a.Lsh(a, 1).Add(a, big.NewInt(1))
+		blockchain.CalcWork(u32hex(f[2]) ^ 0x00010000)
+		if blockchain.CalcWork(u32hex(f[2])).Text(16) != s {
+			return "aliased"
+		}
+		return s
 	case "pow":
 		// f[2] = 80-byte header, f[3] = powLimit
 		raw, _ := hex.DecodeString(f[2])
@@ -211,7 +236,7 @@ func (P) Exec(line string) string {
 		p := chaincfg.Params{SubsidyReductionInterval: int32(i64(f[3]))}
 		return strconv.FormatInt(blockchain.CalcBlockSubsidy(int32(i64(f[2])), &p), 10)
 	}
-	return "bad-op"
+	return execHard(f)
 }
 
 // ---------------------------------------------------------------- generation
@@ -250,6 +275,11 @@ var edgeMantissas = []uint32{0, 1, 2, 0x7f, 0x80, 0xff, 0x100, 0x7fff, 0x8000, 0
 	0x7fffff, 0x800000, 0x800001, 0x80ffff, 0xffffff, 0x00ffff, 0x0377ae, 0x123456, 0x400000, 0x3fffff}
 
 func (P) Generate(g *core.Gen) {
+	generateBase(g)
+	generateHard(g)
+}
+
+func generateBase(g *core.Gen) {
 	r := g.R
 	// compact -> big / work: all 256 exponents x edge mantissas (exhaustive grid), then random
 	for e := uint32(0); e < 256; e++ {
